@@ -399,6 +399,24 @@ def make_pre_dataset(m, conflict):
         m.ctx.stats["partial-conflict"] += 1
     shape = [len(coords[a]) for a in names]
     data = {}
+    near = conflict and kind in ("scalar", "tuple2") and m.tape.flag(1, 3, "near-conflict")
+    if near:
+        # the earlier data is what the crop will compute, off by a relative 2**-41: a real
+        # conflict that any tolerance would wave through
+        import itertools
+        from .. import calllog as _cl
+        from .crop import outputs_of as _outs
+
+        exp = sw.expected()
+        m.ctx.stats["near-conflict"] += 1
+        for o in outs:
+            arr = np.full(shape, np.nan)
+            for idx in itertools.product(*[range(n_) for n_ in shape]):
+                loc = frozenset((a, plain(coords[a][i])) for a, i in zip(names, idx))
+                if loc in exp:
+                    arr[idx] = _outs(kind, exp[loc])[o] * _cl.NEAR
+            data[o] = (names, arr)
+        return xr.Dataset(data, coords=dict(coords))
     for o in outs:
         if kind == "array":
             arr = np.full(shape + [3], 123.5)
@@ -466,4 +484,4 @@ def check_delivery(m, res, crop, role, kind, fin_locs, stage, pre_ds, pre_rows,
                             "table on disk has {} rows, expected {} earlier + {} new".format(
                                 len(disk), npre, len(m.sample_kwargs)))
         check_sample_rows(disk.iloc[npre:], m.sample_kwargs, kind, hidden, "rows-on-disk", fin_idx,
-                          approx=(fspec.engine == "csv"))
+                          approx=False)
